@@ -2,7 +2,7 @@
    (kind 2) the trace acceptor of Model/SystemAccept.v plus the boolean order check on the final state.
    No proofs in this file. *)
 From Coq Require Import List NArith ZArith Bool Arith PeanoNat.
-From SV Require Import Model.Common Model.System Model.SystemAccept.
+From SV Require Import Model.Common Model.System Model.SystemAccept Model.RecoveryOrder.
 Import ListNotations.
 Open Scope nat_scope.
 
@@ -90,4 +90,6 @@ Definition run_case_C05 (c : case) : bytes :=
   else if N.eqb (c_kind c) 4 then str [111;107;58;111;118;101;114;102;108;111;119]   (* "ok:overflow": idem *)
   else if N.eqb (c_kind c) 5 then str [111;107;58;98;97;99;107;108;111;103]            (* "ok:backlog": idem *)
   else if N.eqb (c_kind c) 6 then str [111;107;58;115;116;97;108;108]                  (* "ok:stall": idem *)
+  else if N.eqb (c_kind c) 7 then run_recovery_case (c_zargs c)        (* Model/RecoveryOrder.v: transmission order per life *)
+  else if N.eqb (c_kind c) 8 then run_live_restart_case (c_zargs c)    (* idem: first-delivery order of the stream *)
   else bad_case_output.
